@@ -328,7 +328,8 @@ func runBatch(b batch, scale int) *rp.Fail {
 			defer wg.Done()
 			dc := cfg
 			dc.TimeoutMs = 120 * scale
-			dc.BindPort = 0
+			// (with a fixed bind port the discovery queues for the port like every other call and must still collect
+			// replies for its whole window)
 			u := hook.Real(dc)
 			for i := 0; i < 2; i++ {
 				list, err := u.GetDevices()
